@@ -9,7 +9,7 @@ from typing import Any
 
 from harness import c02_util as U
 from harness.common import VERIF, Ck, coq_list, coq_str
-from translate import c02_tables, c03_basetok, c03_kvparse
+from translate import c02_tables, c03_basetok, c03_errfmt, c03_kvparse
 
 MANIFEST = dict(
     technique='Rocq proof (generic chunked-reader = flat-reader simulation for every reader program; totality, progress, '
@@ -1015,6 +1015,124 @@ def _bt_locate(ck: Ck, kind: str) -> str:
                     return f'first: source={kind} ops={d["ops"]} impl={imp} model={m}'
     return 'disagreement only at length >= 4'
 
+# ------------------------------------------------------------------------------------------------ error texts
+EF_IMPORTS = ['Coq.Lists.List', 'Coq.NArith.NArith', 'SV.Text.Str', 'SV.Text.ErrFmt', 'SV.Text.ErrFmtGen']
+
+
+def _opt(x, f) -> str:
+    return 'None' if x is None else f'(Some {f(x)})'
+
+
+def _enc_opt(fn) -> list[int]:
+    """Encoded as ErrFmtGen.enc_opt: [1, chars...] for a text, [0] if anything is raised."""
+    try:
+        return [1, *map(ord, fn())]
+    except Exception:  # noqa: BLE001 - the model's None
+        return [0]
+
+
+def corr_errfmt(ck: Ck) -> None:
+    """Model of the error texts (pieces regenerated from the source) vs the implementation: format_exc_fileinfo and
+    str(TokenSyntaxError(...)) on every combination of 6 messages x 5 file values x 14 line values; error(Token.X [, value]).mess
+    and str(error(...)) for every Token member x 4 values x 3 file names x 4 lines, through Tokenizer and IterTokenizer."""
+    from srctools.tokenizer import IterTokenizer, Token, Tokenizer, TokenSyntaxError, format_exc_fileinfo
+    rng = ck.rng
+    msgs = ['', 'm', 'Unexpected "}" character!', 'two\nlines', 'braces {} {0}', 'unicode \u00e9\U0001F600']
+    files = [None, '', 'f.vmf', 'dir/a "b".txt', 'x' * 40]
+    lines = [None, 0, 1, 9, 10, 11, 99, 100, 101, 65535, 10 ** 9, 10 ** 18 + 7, 10 ** 30, rng.randrange(10 ** 6)]
+    fi = [(m, f, ln) for m in msgs for f in files for ln in lines]
+    got_fi = []
+    for m, f, ln in fi:
+        a = _enc_opt(lambda: format_exc_fileinfo(m, f, ln))
+        b = _enc_opt(lambda: str(TokenSyntaxError(m, f, ln)))
+        got_fi.append(a if a == b else [9])                   # __str__ must be format_exc_fileinfo of the three fields
+        ck.count('corr_errfmt_fileinfo')
+        ck.seen(('ef', m, f, ln))
+    vals = [None, '', 'v', 'va"l\n{}']
+    tm = [(t, v) for t in Token for v in vals]
+    got_tm = []
+    got_tx = []
+    tx = []
+    for t, v in tm:
+        tk = Tokenizer('', None)
+        got_tm.append(_enc_opt(lambda: (tk.error(t) if v is None else tk.error(t, v)).mess))
+        ck.count('corr_errfmt_token_messages')
+        for fname in (None, 'f.txt', 'q"q'):
+            for line in (1, 7, 10, 12345):
+                for cls in (Tokenizer, IterTokenizer):
+                    tk2 = cls('' if cls is Tokenizer else [], fname)
+                    tk2.line_num = line
+                    e = _enc_opt(lambda: str(tk2.error(t) if v is None else tk2.error(t, v)))
+                    err = tk2.error(t) if (v is None and e != [0]) else None
+                    if err is not None and (err.line_num != line or err.file != fname or type(err) is not TokenSyntaxError):
+                        e = [9]
+                    if cls is Tokenizer:
+                        tx.append((t, v, fname, line))
+                        got_tx.append(e)
+                    elif e != got_tx[-1]:
+                        got_tx[-1] = [9]
+                    ck.count('corr_errfmt_error_texts')
+    # str-form messages: formatted exactly when arguments are given
+    tk = Tokenizer('', 'n.kv')
+    strform = _enc_opt(lambda: tk.error('a{}b{}', 1, 'x').mess) == [1, *map(ord, 'a1bx')] and _enc_opt(lambda: tk.error('a{}b').mess) == [1, *map(ord, 'a{}b')]
+    s = coq_str
+    exprs = ['map (fun x => hcase (fileinfo_case x)) ' + coq_list(f'({s(m)}, {_opt(f, s)}, {_opt(ln, str)})' for m, f, ln in fi),
+             'map (fun x => hcase (tokmsg_case x)) ' + coq_list(f'({t.value}, {_opt(v, s)})' for t, v in tm),
+             'map (fun x => hcase (tokerr_text_case x)) ' + coq_list(f'({t.value}, {_opt(v, s)}, {_opt(f, s)}, {ln})' for t, v, f, ln in tx)]
+    res = ck.coq_eval(EF_IMPORTS, exprs, name='errfmt', preamble=U.PRE)
+    bad: list[str] = []
+    if res is None:
+        bad.append('model evaluation failed')
+    else:
+        groups = (('format_exc_fileinfo / str(TokenSyntaxError)', 'fileinfo_case', fi, got_fi, res[0],
+                   lambda c: f'({s(c[0])}, {_opt(c[1], s)}, {_opt(c[2], str)})'),
+                  ('error(Token).mess', 'tokmsg_case', tm, got_tm, res[1], lambda c: f'({c[0].value}, {_opt(c[1], s)})'),
+                  ('str(error(Token))', 'tokerr_text_case', tx, got_tx, res[2],
+                   lambda c: f'({c[0].value}, {_opt(c[1], s)}, {_opt(c[2], s)}, {c[3]})'))
+        for what, fn, cases, got, r, lit in groups:
+            mod = [U.parse_int63(x) for x in _split_ints(r)]
+            if len(mod) != len(got):
+                bad.append(f'{what}: {len(mod)} model values for {len(got)} cases')
+                continue
+            for cse, g, m_ in zip(cases, got, mod):
+                if U.hash_list(g) != m_:
+                    def show(x):
+                        return 'raises' if x == [0] else ('<str differs from format_exc_fileinfo / wrong fields or type>' if x == [9] else repr(''.join(map(chr, x[1:]))))
+                    from harness.common import parse_coq_N_list
+                    mv = ck.coq_eval(EF_IMPORTS, [f'{fn} {lit(cse)}'], name='errfmt_locate', preamble=U.PRE)
+                    bad.append(f'{what}{cse!r}: implementation {show(g)}, model {show(parse_coq_N_list(mv[0])) if mv else "?"}')
+                    break
+    if not strform:
+        bad.append("error('a{}b{}', 1, 'x') / error('a{}b'): str messages are not formatted exactly when arguments are given")
+    ok = not bad
+    ck.obligation('correspondence:error_texts', ok,
+                  f'error-text model (pieces regenerated from tokenizer.py) vs the implementation: format_exc_fileinfo and str(TokenSyntaxError) on '
+                  f'{len(fi)} (message, file, line) combinations incl. None / 0 / 10**30; error(Token.X [, value]).mess for all {len(list(Token))} members x '
+                  f'{len(vals)} values; str(error(...)), its line_num / file / type through Tokenizer and IterTokenizer on {len(tx)} cases: '
+                  + ('agree' if ok else '; '.join(bad[:3])))
+    if not ok:
+        ck.tie_broken.append('correspondence error texts vs Text/ErrFmt.v')
+        ck.extra['errfmt_disagreements'] = bad[:10]
+    # oracle on the implementation alone (property: the error, line included, is what is reported; formatting never fails)
+    for t, v in tm:
+        for fname in (None, 'f'):
+            tk = Tokenizer('', fname)
+            tk.line_num = 3
+            try:
+                e = tk.error(t) if v is None else tk.error(t, v)
+                txt = str(e)
+                if not (isinstance(e, TokenSyntaxError) and e.line_num == 3 and txt.startswith(e.mess) and '3' in txt[len(e.mess):]):
+                    raise AssertionError('text')
+            except Exception as ex:  # noqa: BLE001
+                if not capped('errfmt'):
+                    ck.violation(f'error-text:{t.name}:{"value" if v is not None else "novalue"}:{type(ex).__name__}',
+                                 f'Tokenizer("", {fname!r}).error(Token.{t.name}{"" if v is None else ", " + repr(v)}) and its str(): {type(ex).__name__}: {ex} '
+                                 f'(must build a TokenSyntaxError whose text starts with the message and shows line 3)',
+                                 {'kind': 'errtext', 'token': t.value, 'value': v, 'file': fname})
+    ck.sample({'error_text_case': {'call': "Tokenizer('', 'f.txt').error(Token.STRING, 'v') at line 7",
+                                   'str': str(Tokenizer('', 'f.txt').error(Token.STRING, 'v')).replace('line 1', 'line 7')}})
+
+
 # ------------------------------------------------------------------------------------------------ oracle on the implementation
 def chunk_oracle(s: str, bits: int, cs: list[str]) -> str | None:
     """Chunked delivery must give the same trace as the single string; nothing but TokenSyntaxError may escape."""
@@ -1364,7 +1482,8 @@ def run(ck: Ck) -> None:
         ck.notes.append('hand-modelled tokenizer functions changed since the model was written: budgets escalated')
     ok_k = ck.translate('KvParseSites_gen', c03_kvparse.translate)
     ok_b = ck.translate('BaseTokSites_gen', c03_basetok.translate)
-    built = ok_t and ok_k and ok_b and ck.build(['Props/C03.vo', 'Text/TokEnum.vo', 'Text/KvErrGen.vo', 'Text/BaseTokEnum.vo'])
+    ok_e = ck.translate('ErrFmt_gen', c03_errfmt.translate)
+    built = ok_t and ok_k and ok_b and ok_e and ck.build(['Props/C03.vo', 'Text/TokEnum.vo', 'Text/KvErrGen.vo', 'Text/BaseTokEnum.vo', 'Text/ErrFmtGen.vo'])
     if built:
         started = start_exhaustive_model(ck)
         ck.theorems('Props/C03.v')
@@ -1393,6 +1512,19 @@ def run(ck: Ck) -> None:
             'push_back_of_an_operator_redelivers_what_the_tokenizer_delivers': 'operator_vals_match_tokenizer',
             'push_back_keeps_the_value_of_value_tokens': 'value_tokens_keep_their_value',
         }, name='btinst')
+        ck.instance_obligations(EF_IMPORTS + ['SV.Gen.ErrFmt_gen'], {
+            'format_exc_fileinfo_never_raises': 'fileinfo_never_raises',
+            'error_text_starts_with_the_message': 'fileinfo_starts_with_the_message',
+            'error_text_is_the_message_without_file_and_line': 'fileinfo_is_the_message_without_file_and_line',
+            'error_text_shows_the_line_number': 'fileinfo_shows_the_line',
+            'error_text_shows_the_file_name': 'fileinfo_shows_the_file',
+            'error_text_pieces_wellformed': 'fileinfo_pieces_wellformed',
+            'error_builds_a_message_for_every_token_with_and_without_value': 'every_token_has_a_message',
+            'token_messages_consist_of_text_and_the_value': 'token_messages_wellformed',
+            'error_passes_message_filename_line_num_to_error_type': 'gen_error_ctor_ok',
+            'error_formats_str_messages_exactly_when_arguments_are_given': 'gen_error_str_form_ok',
+            'error_refuses_a_token_with_two_values': 'gen_error_two_values_refused',
+        }, name='efinst')
         _stage(ck, 'translate+build+theorems+instances')
         corr_exhaustive(ck, escalate, started)
         _stage(ck, 'corr_exhaustive')
@@ -1402,6 +1534,8 @@ def run(ck: Ck) -> None:
         _stage(ck, 'corr_kvparse')
         corr_basetok(ck, escalate)
         _stage(ck, 'corr_basetok')
+        corr_errfmt(ck)
+        _stage(ck, 'corr_errfmt')
     search(ck, escalate)
     _stage(ck, 'search')
     ck.extra.pop('_t_last', None)
@@ -1425,6 +1559,21 @@ def replay(data: dict) -> int:
             print(f' model (parser model as configured by the last ./check run): {kv_name(int(mv[0].split("%")[0]))}')
         print('VIOLATED' if c >= 300 else 'property holds on this input')
         return 1 if c >= 300 else 0
+    if r.get('kind') == 'errtext':
+        from srctools.tokenizer import Token, Tokenizer, TokenSyntaxError
+        tk = Tokenizer('', r.get('file'))
+        tk.line_num = 3
+        t, v = Token(r['token']), r.get('value')
+        try:
+            e = tk.error(t) if v is None else tk.error(t, v)
+            txt = str(e)
+            good = isinstance(e, TokenSyntaxError) and e.line_num == 3 and txt.startswith(e.mess) and '3' in txt[len(e.mess):]
+            print(f'error({t}, {v!r}) -> {e!r}\n str: {txt!r}')
+        except Exception as ex:  # noqa: BLE001
+            good = False
+            print(f'error({t}, {v!r}) raised {type(ex).__name__}: {ex}')
+        print('property holds on this input' if good else 'VIOLATED')
+        return 0 if good else 1
     if r.get('kind') == 'basetok':
         s = ''.join(map(chr, r['text']))
         res = basetok_delivery(s, r['bits'], r['plan'])
